@@ -601,6 +601,90 @@ def ra_gen(rnd):
     return labels
 
 
+RA_MAX_FRAMES = 18
+RA_FULL_OP = 12      # steps that complete any operation running alone (extra steps of a finished frame are no-ops)
+
+
+def ra_gen_threads(rnd, directed=None):
+    """program-order executions: 2-3 threads, each a SEQUENCE of operations (a frame inherits the view of its
+    thread's previous frame), interleaved mostly at operation granularity with a few operations stalled part-way
+    while the others go on (the shape an ABA on a queue word needs: a stalled dequeuer, the slots going a full round).
+    directed = (kind of the stalled operation, steps it takes before the stall, operations that pass meanwhile)"""
+    labels, tag = [], [1]
+    last = {}                     # thread -> index of its latest frame
+    nframes = [0]
+
+    def spawn(th, kind):
+        par = last.get(th)
+        labels.append((1, kind, tag[0], 0 if par is None else par + 1))
+        tag[0] += 1
+        last[th] = nframes[0]
+        nframes[0] += 1
+        return last[th]
+
+    FRESH = [60, 60, 0, 0, 60, 0] + [0] * 6      # slot, load (latest), CAS, cell, load (latest), CAS; then retries
+    STALE = [60] + [0] * 11                       # every queue load reads the oldest message its view allows
+    done = {}
+
+    def steps(fr, n, fresh):
+        pat = FRESH if fresh else STALE
+        k = done.get(fr, 0)
+        for c in pat[k:k + n]:
+            labels.append((0, fr, c, 0))
+        done[fr] = k + n
+
+    if directed is not None:
+        kind, pre, rounds = directed
+        # thread 0 fills so that the stalled operation has something to dequeue
+        if kind == 2:
+            steps(spawn(0, 1), RA_FULL_OP, True)
+        st = spawn(1, kind)
+        steps(st, pre, True)
+        if kind == 2:
+            steps(spawn(0, 2), RA_FULL_OP, True)
+        for _ in range(rounds):
+            steps(spawn(0, 1), RA_FULL_OP, True)
+        for _ in range(rounds - (1 if kind == 2 else 0)):
+            steps(spawn(0, 2), RA_FULL_OP, True)
+        steps(st, RA_FULL_OP, True)
+        steps(spawn(1, 2 if kind == 1 else 1), RA_FULL_OP, True)
+        return labels
+    nth = rnd.randint(2, 3)
+    stalled = []
+    outstanding = 0
+    for _ in range(rnd.randint(4, 18)):
+        if nframes[0] >= RA_MAX_FRAMES:
+            break                 # views are functions in the model: the cost of an execution grows quickly with its length
+        th = rnd.randrange(nth)
+        if stalled and rnd.random() < 0.25:
+            fr = stalled.pop(rnd.randrange(len(stalled)))
+            steps(fr, RA_FULL_OP, rnd.random() < 0.5)
+            continue
+        if any(last.get(th) == f for f in stalled):
+            continue              # this thread is inside its stalled operation
+        if stalled and rnd.random() < 0.3:
+            # the slots go round while an operation is stalled: r sends, then as many receives, by one thread
+            r = min(rnd.randint(1, 6), (RA_MAX_FRAMES - nframes[0]) // 2)
+            for kind in [1] * r + [2] * r:
+                steps(spawn(th, kind), RA_FULL_OP, True)
+            continue
+        kind = 1 if outstanding <= 0 or (outstanding < 5 and rnd.random() < 0.5) else 2
+        outstanding += 1 if kind == 1 else -1
+        fr = spawn(th, kind)
+        if rnd.random() < 0.25 and len(stalled) < 2:
+            steps(fr, rnd.randint(1, 5), True)
+            stalled.append(fr)
+        else:
+            steps(fr, RA_FULL_OP, rnd.random() < 0.7)
+    for fr in stalled:
+        steps(fr, RA_FULL_OP, True)
+    return labels
+
+
+def ra_directed():
+    return [ra_gen_threads(random.Random(1), (kind, pre, rounds)) for kind in (1, 2) for pre in (1, 2, 3, 4, 5) for rounds in (1, 2, 3, 4, 5, 6)]
+
+
 def ra_run(cases):
     outs = common.run_driver('channel', ['run_ra ' + ' '.join(str(x) for l in c for x in l) for c in cases])
     res = []
@@ -627,8 +711,10 @@ def ra_search(ctx, n):
     if not ctx.driver('channel', *DRIVER):
         return 0
     rnd = random.Random(ctx.seed * 31337 + 7)
-    cases = [ra_gen(rnd) for _ in range(n)]
+    directed = ra_directed()
+    cases = directed + [ra_gen(rnd) if i % 2 == 0 else ra_gen_threads(rnd) for i in range(n)]
     res = ra_run(cases)
+    n = len(cases)
     ctx.evaluations += n
     found = {}
     for c, r in zip(cases, res):
